@@ -96,6 +96,8 @@ type FuncEnc struct {
 	assumedCallees map[string]bool
 	inlinedCallees map[string]bool
 	usedContracts map[string]bool
+	usedFns       map[*ssa.Function]bool // callees whose contract was applied at a call site
+	usedIfaces    map[string]bool        // interface-method contracts applied at invoke sites
 	pass   int
 	seqLen map[string]string // spec-level sequences: element-array term -> length term
 	sentinelVals []string
